@@ -259,9 +259,9 @@ func intervalIntersects(a, b orb.Bound) bool {
 }
 
 func init() {
-	optsAll := &gen.GeomOpts{Float: gen.FloatAll, NilSlices: true, Empty: true, EmptyParts: true, RingBound: true}
-	optsFin := &gen.GeomOpts{Float: gen.FloatFinite, NilSlices: true, Empty: true, EmptyParts: true, RingBound: true}
-	optsOrd := &gen.GeomOpts{Float: gen.FloatOrdinary, NilSlices: true, Empty: true, EmptyParts: true, RingBound: true}
+	optsAll := &gen.GeomOpts{Float: gen.FloatAll, NilSlices: true, Empty: true, EmptyParts: true, RingBound: true, Huge: true}
+	optsFin := &gen.GeomOpts{Float: gen.FloatFinite, NilSlices: true, Empty: true, EmptyParts: true, RingBound: true, Huge: true}
+	optsOrd := &gen.GeomOpts{Float: gen.FloatOrdinary, NilSlices: true, Empty: true, EmptyParts: true, RingBound: true, Huge: true}
 
 	h.Register(&h.Monitor{
 		ID: "C06",
